@@ -50,7 +50,7 @@ public:
 	*/
 	Pose_ interpolate(const Pose_& pose, T t)
 	{
-		return Pose((1 - t)*p + t*pose.p, q.slerp(pose.q, t));
+		return Pose_((1 - t)*p + t*pose.p, q.slerp(pose.q, t));
 	}
 };
 
